@@ -31,13 +31,13 @@ def model (op : String) (toks : List Tok) : Option (List Tok) :=
   | "mpf_set_si", [.num rp, .num w] => if rp < 2 then none else some (render (set_si rp.toNat w))
   | "mpf_set_z", [.num rp, .num z] => if rp < 2 then none else some (render (set_z rp.toNat z))
   | "mpf_set_q", [.num rp, .num n, .num d] => if rp < 2 ∨ d ≤ 0 then none else some (render (set_q rp.toNat n d.toNat))
-  | "mpf_set_d", [.num rp, .num b] => if rp < 2 then none else some (renderRes (set_d rp.toNat b.toNat))
+  | "mpf_set_d13", [.num rp, .num b] => if rp < 2 then none else some (renderRes (set_d rp.toNat b.toNat))
   | "mpf_prec_rt", [.num b] => some [natTok (BITS_TO_PREC b.toNat), natTok (PREC_TO_BITS (BITS_TO_PREC b.toNat))]
-  | "mpf_integer_p", ts =>
+  | "mpf_integer_p13", ts =>
       match opnd? ts with
       | some (u, []) => some [boolTok (integer_p u)]
       | _ => none
-  | "mpf_cmp", ts =>
+  | "mpf_cmp13", ts =>
       match opnd? ts with
       | some (u, r1) => match opnd? r1 with
         | some (v, []) => some [.num (cmp u v)]
@@ -225,17 +225,17 @@ def spec (op : String) (toks : List Tok) : Option Spec :=
       if rp < 2 ∨ d ≤ 0 then none else
       let p := pbits rp.toNat
       some (.val rp.toNat ⟨n, d.toNat, 0⟩ (fits (Dy.ofInt n) p && fits (Dy.ofInt d) p) false)
-  | "mpf_set_d", [.num rp, .num b] =>
+  | "mpf_set_d13", [.num rp, .num b] =>
       if rp < 2 then none else
       some (if b.toNat / 2 ^ 52 % 2 ^ 11 = 0x7FF then .exc "fpe" else .val rp.toNat (dblValue b.toNat) true true)
-  | "mpf_integer_p", ts =>
+  | "mpf_integer_p13", ts =>
       match opnd? ts with
       | some (u, []) =>
           let U := Dy.ofF u
           -- n·2^e is an integer iff n = 0, e ≥ 0, or 2^(-e) divides n
           some (.int (if U.n = 0 ∨ U.e ≥ 0 ∨ (-U.e).toNat ≤ tz U.n.natAbs then 1 else 0))
       | _ => none
-  | "mpf_cmp", ts =>
+  | "mpf_cmp13", ts =>
       match opnd? ts with
       | some (u, r1) => match opnd? r1 with
         | some (v, []) => some (.int (cmpDy (Dy.ofF u) (Dy.ofF v)))
